@@ -397,7 +397,7 @@ fn pattern_data(rng: &mut Rng, n: usize) -> Vec<u8> {
 /// (c) the reader alone against the model (data, pos)
 fn part_c(p: &Params, rep: &mut Report, i: u64) {
     let mut rng = Rng::new(p.case_seed(i) ^ 0xCCCC);
-    let low = *rng.pick(&[1usize, 7, 4096, 4096, DLT_MAX_STORAGE_MSG_SIZE, 100]);
+    let low = if p.has("tiny") { *rng.pick(&[1usize, 7, 100]) } else { *rng.pick(&[1usize, 7, 4096, 4096, DLT_MAX_STORAGE_MSG_SIZE, 100]) };
     let cap = low + 4096 + *rng.pick(&[0usize, 0, 1, 100, 4096, 5000]);
     let n = match rng.below(5) {
         0 => rng.usize_below(cap),
@@ -407,7 +407,7 @@ fn part_c(p: &Params, rep: &mut Report, i: u64) {
     let data = pattern_data(&mut rng, n);
     let sched = pick_schedule(&mut rng);
     let sseed = rng.next_u64();
-    let nops = if low > 10000 { 50 + rng.usize_below(400) } else { 50 + rng.usize_below(3000) };
+    let nops = if p.has("tiny") { 20 + rng.usize_below(60) } else if low > 10000 { 50 + rng.usize_below(400) } else { 50 + rng.usize_below(3000) };
     rep.inc("evaluations");
     rep.inc("c_histories");
     let mut ops_log: Vec<String> = Vec::new();
@@ -578,8 +578,9 @@ pub fn run(p: &Params) -> Report {
         return rep;
     }
     let mut i = 0u64;
+    let tiny = p.has("tiny");
     while (p.cases == 0 || i < p.cases) && !p.time_up() {
-        if i % 4 == 3 {
+        if i % 4 == 3 && !tiny {
             part_ab(p, &mut rep, i);
         } else {
             part_c(p, &mut rep, i);
